@@ -353,6 +353,37 @@ func c07BStep(t *rapid.T) kit.Argv {
 	}
 }
 
+// c07Single: a list, set or hash with exactly one element and a deadline, then a command that takes that
+// element out and puts one back inside a single command (rotation onto itself, move onto itself, overwrite):
+// the key is "modified in place" and keeps its deadline, although it passes through an empty state on the way.
+func c07Single(t *rapid.T) []kit.Argv {
+	ty := rapid.IntRange(0, 2).Draw(t, "sty")
+	k := []string{"kl", "kz", "kh"}[ty]
+	out := []kit.Argv{kit.A("DEL", k)}
+	switch ty {
+	case 0:
+		out = append(out, kit.A("RPUSH", k, "only"))
+	case 1:
+		out = append(out, kit.A("SADD", k, "only"))
+	default:
+		out = append(out, kit.A("HSET", k, "only", "1"))
+	}
+	out = append(out, kit.A(pick(t, "sdl", []string{"PEXPIREAT", k, "4102444800123"}, []string{"EXPIRE", k, "100000"}, []string{"PEXPIRE", k, "123456789"})...))
+	for n := rapid.IntRange(1, 3).Draw(t, "sn"); n > 0; n-- {
+		switch ty {
+		case 0:
+			out = append(out, kit.A(pick(t, "sop", []string{"LMOVE", k, k, "LEFT", "RIGHT"}, []string{"LMOVE", k, k, "RIGHT", "LEFT"}, []string{"LMOVE", k, k, "LEFT", "LEFT"}, []string{"LMOVE", k, k, "RIGHT", "RIGHT"},
+				[]string{"RPOPLPUSH", k, k}, []string{"LSET", k, "0", "other"}, []string{"LINSERT", k, "BEFORE", "only", "x"}, []string{"LTRIM", k, "0", "0"}, []string{"LREM", k, "0", "nosuch"}, []string{"SORT", k, "ALPHA", "STORE", k})...))
+		case 1:
+			out = append(out, kit.A(pick(t, "sop", []string{"SMOVE", k, k, "only"}, []string{"SADD", k, "only"}, []string{"SREM", k, "nosuch"}, []string{"SUNIONSTORE", k, k}, []string{"SINTERSTORE", k, k, k}, []string{"SMOVE", k, "kz2", "nosuch"})...))
+		default:
+			out = append(out, kit.A(pick(t, "sop", []string{"HSET", k, "only", "2"}, []string{"HINCRBY", k, "only", "1"}, []string{"HSETNX", k, "only", "3"}, []string{"HDEL", k, "nosuch"}, []string{"HINCRBYFLOAT", k, "only", "0.5"})...))
+		}
+		out = append(out, kit.A("PEXPIRETIME", k))
+	}
+	return out
+}
+
 func c07BGen(t *rapid.T) SeqCase {
 	var steps []kit.Argv
 	for _, s := range setupTyped()[:4] {
@@ -360,6 +391,10 @@ func c07BGen(t *rapid.T) SeqCase {
 	}
 	n := rapid.IntRange(6, 40).Draw(t, "steps")
 	for i := 0; i < n; i++ {
+		if rapid.IntRange(0, 11).Draw(t, "single") == 0 {
+			steps = append(steps, c07Single(t)...)
+			continue
+		}
 		steps = append(steps, c07BStep(t))
 	}
 	return SeqCase{Steps: steps}
